@@ -429,6 +429,58 @@ example : getSize "100k".toList = some (100 * 1024) := by
   have := (C17_getSize_spec "100".toList (by decide) (by decide)).2.1 'k' (by decide) (by decide)
   simpa [decValue] using this
 
+/-! ### skip-clean: which repositories a skip-clean URL protects -/
+
+theorem isPrefixOf_append_cons (base rest : S) (c d : Char) : (base ++ [d]).isPrefixOf (base ++ c :: rest) = decide (d = c) := by
+  induction base with
+  | nil =>
+    simp only [List.nil_append, List.isPrefixOf, Bool.and_true]
+    by_cases h : d = c <;> simp [h]
+  | cons b bs ih => simpa [List.isPrefixOf] using ih
+
+/-- **C17 (skip-clean is matched at path boundaries, not by string prefix; regression of F-C17b, unbounded).** A skip-clean URL that
+    merely starts with the characters of a repository URL - `…/debian-security/x` against `…/debian` - does not name that
+    repository. -/
+theorem C17_skipClean_boundary (base rest : S) (c : Char) (hb : base.getLast? ≠ some '/') (hc : c ≠ '/') :
+    isPartOf base (base ++ c :: rest) = false := by
+  unfold isPartOf
+  simp only [rstrip_id_of_no_trailing base hb]
+  have h1 : (base ++ c :: rest = base) = False := by
+    apply eq_false
+    intro h
+    have := congrArg List.length h
+    simp at this
+  have h2 := isPrefixOf_append_cons base rest c '/'
+  simp only [h1, decide_false, Bool.false_or, h2]
+  simp [Ne.symm hc]
+
+/-- **C17 (nested repositories are both protected; unbounded).** For an outer repository `o` and an inner one `o/x`, a skip-clean URL
+    at or below the inner one names both (and any repository list keeps exactly those it is a part of). -/
+theorem C17_skipClean_nested (o x y : S) (ho : o.getLast? ≠ some '/') (hx : (o ++ '/' :: x).getLast? ≠ some '/') :
+    isPartOf o (o ++ '/' :: x ++ '/' :: y) = true ∧ isPartOf (o ++ '/' :: x) (o ++ '/' :: x ++ '/' :: y) = true ∧
+    isPartOf o (o ++ '/' :: x) = true ∧ isPartOf (o ++ '/' :: x) (o ++ '/' :: x) = true := by
+  unfold isPartOf
+  simp only [rstrip_id_of_no_trailing o ho, rstrip_id_of_no_trailing _ hx]
+  refine ⟨?_, ?_, ?_, ?_⟩
+  · have : (o ++ ['/']).isPrefixOf (o ++ '/' :: x ++ '/' :: y) = true := by
+      have e : o ++ '/' :: x ++ '/' :: y = o ++ '/' :: (x ++ '/' :: y) := by simp
+      rw [e, isPrefixOf_append_cons]; simp
+    simp [this]
+  · have : (o ++ '/' :: x ++ ['/']).isPrefixOf (o ++ '/' :: x ++ '/' :: y) = true := by
+      rw [isPrefixOf_append_cons]; simp
+    simp [this]
+  · have : (o ++ ['/']).isPrefixOf (o ++ '/' :: x) = true := by
+      rw [isPrefixOf_append_cons]; simp
+    simp [this]
+  · simp
+
+theorem C17_skipClean_scope (repos : List S) (u r : S) :
+    r ∈ skipCleanTargets repos u ↔ r ∈ repos ∧ isPartOf r u = true := by
+  simp [skipCleanTargets, List.mem_filter]
+
+example : skipCleanTargets ["http://h/debian".toList, "http://h/debian-security".toList, "http://h/debian/pve".toList]
+    "http://h/debian/pve/pool/keep".toList = ["http://h/debian".toList, "http://h/debian/pve".toList] := by decide
+
 /-! ### the original code: one shared architecture list per line (regression witness) -/
 
 /-- explicit heap model of the aliasing in the original `update_repository`/`to_repository`: all components created
